@@ -7,7 +7,7 @@ from engine import verus
 unit = sys.argv[1]
 out = '/tmp/verif_gen'; os.makedirs(out, exist_ok=True)
 path = os.path.join(out, unit + '.rs')
-metas = verus.generate(unit, '/repo', path)
+metas = verus.generate(unit, os.environ.get('VU_REPO', '/repo'), path)
 extra = []
 if '--fn' in sys.argv: extra += ['--verify-function', sys.argv[sys.argv.index('--fn') + 1], '--verify-root']
 if '--rlimit' in sys.argv: extra += ['--rlimit', sys.argv[sys.argv.index('--rlimit') + 1]]
